@@ -516,10 +516,10 @@ class SymBytes(object):
             if encoding is None:
                 raise TypeError('string argument without an encoding')
             self.d = list(a.encode(encoding, errors or 'strict'))
-        elif isinstance(a, SymBytes):
-            self.d = list(a.d)
-        elif isinstance(a, (bytes, bytearray)):
-            self.d = list(a)
+        elif isinstance(a, (SymBytes, bytes, bytearray)):
+            if encoding is not None or errors is not None:
+                raise TypeError('encoding without a string argument')
+            self.d = list(a.d) if isinstance(a, SymBytes) else list(a)
         elif isinstance(a, (list, tuple)) or hasattr(a, '__iter__'):
             self.d = [_byte_ok(x) for x in a]
         else:
@@ -746,7 +746,10 @@ class SymStr(object):
             return not r
         return wrap(tm.not_(r.t))
 
-    __hash__ = None
+    def __hash__(self):
+        # strings are hashable in Python: a string used as a dict key is made concrete (code point by
+        # code point, by forking; the enumeration guard applies to wide ranges)
+        return hash(''.join(chr(E.concretize(c.t)) if isinstance(c, SymInt) else chr(c) for c in self.cps))
 
     def encode(self, encoding='utf-8', errors='strict'):
         return SymBytes.of(self.encode_list(encoding, errors))
